@@ -47,6 +47,8 @@ def mutants_main(argv):
             m = os.path.join(sdir, d, "meta.json")
             if os.path.exists(p) and os.path.exists(m):
                 meta = json.load(open(m))
+                if meta.get("masked_by") and not argv:
+                    continue  # no longer breaks the property on the current tree (see meta.json); run only when named
                 props = meta.get("checks") or [meta.get("property")]
                 items.append((f"seeded/{d}", p, props))
     if argv:
